@@ -78,7 +78,7 @@ func runC05(c *Ctx) {
 				return false, false
 			})
 			g, path := Guarded(prune.Blocks[0], ci, pass, noReturnCommands)
-			c.Check(g && len(pass) > 0, "R1", "delete-gated-by-dry-run", p.InstrPos(ci), "objects are deleted only when --dry-run is off", "objects can be deleted although --dry-run was given: "+path)
+			c.Check(g && nonVacuous(pass), "R1", "delete-gated-by-dry-run", p.InstrPos(ci), "objects are deleted only when --dry-run is off", "objects can be deleted although --dry-run was given: "+path)
 			// the list deleted is the prunable list
 		}
 	}
@@ -133,7 +133,7 @@ func runC05(c *Ctx) {
 				return false, false
 			})
 			g, path := Guarded(l.Body, in, pass, nil)
-			c.Check(g && len(pass) > 0, "R2", "prunable-only-if-not-retained", p.InstrPos(in), "an object is listed for pruning only when the retained set does not contain it", "an object can be listed for pruning without the retained-set lookup of that object having been negative: "+path)
+			c.Check(g && nonVacuous(pass), "R2", "prunable-only-if-not-retained", p.InstrPos(in), "an object is listed for pruning only when the retained set does not contain it", "an object can be listed for pruning without the retained-set lookup of that object having been negative: "+path)
 		}
 	}
 	c.AtLeast("R2", "prunable appends", nApp, 1)
